@@ -21,7 +21,7 @@ from mc.ref import geom
 ID = "C12"
 RULE = ("(crop) boxes: 5 positions x 10 yaws x 3 sizes x scales {0.8, 1, 1.3}; cloud = 10^3 lattice in the box's local frame at relative "
         "coordinates {+-0.2, +-0.45, +-0.55, +-0.9, +-1.4}^3 (every point >= 5% of a half-size from a face) mapped to the ego frame, "
-        "with and without an intensity column, plus the empty cloud and a 10^5-point lattice; (frame) every sub-set of 3 boxes x "
+        "with and without an intensity column, plus the empty cloud and a 10^5-point lattice; (frame) every sub-set (<= 3) of 4 boxes (one of them 150 m away) x "
         "visibility {FULL, NONE, unset} each x (scale at 0 m, scale at 100 m, min points) menu x 5 polygonal non-detection prisms "
         "(triangle, rectangle CW and CCW, pentagon, L-shape) on a 5.5k-point lattice through SensingFrameResult.evaluate_frame; "
         "(manager) SensingEvaluationManager on generated datasets incl. loader-provided visibility. state = (layer, size, scale, yaw "
@@ -51,6 +51,7 @@ def units(tier, seed):
     for k in range(8):
         u.append(dict(layer="frame", chunk=[k, 8]))
     u.append(dict(layer="manager"))
+    u.append(dict(layer="prism"))
     return u
 
 
@@ -89,13 +90,18 @@ def run_unit(unit, acc):
     elif unit["layer"] == "frame":
         k, n = unit["chunk"]
         idx = 0
-        for sel in [s for r in range(0, 4) for s in itertools.combinations(range(3), r)]:
+        for sel in [s for r in range(0, 4) for s in itertools.combinations(range(4), r)]:
             for viss in itertools.product(("FULL", "NONE", None), repeat=len(sel)):
                 for s0, s100, minp in [(1.0, 1.0, 1), (1.3, 1.3, 3), (1.0, 1.5, 1), (0.8, 0.8, 200), (1.2, 0.9, 2)]:
                     idx += 1
                     if idx % n != k:
                         continue
                     check_case(dict(layer="frame", sel=list(sel), vis=list(viss), s0=s0, s100=s100, minp=minp), acc)
+    elif unit["layer"] == "prism":
+        for pi in range(len(POLYS)):
+            for rev in (False, True):
+                for zr in ((-1.0, 2.0), (0.5, 3.5)):
+                    check_case(dict(layer="prism", poly=pi, reversed=rev, z=list(zr)), acc)
     else:
         for style in ("t4", "nusc"):
             for s0, s100, minp in [(1.0, 1.0, 1), (1.0, 1.5, 3)]:
@@ -106,7 +112,8 @@ def _rows(a):
     return sorted(tuple(np.round(r, 9)) for r in a)
 
 
-FRAME_BOXES = [(5.013, 1.029, 0.4, (2.0, 4.0, 1.5)), (12.0, -6.0, -1.1, (1.0, 1.0, 1.0)), (40.0, 30.0, 2.0, (2.0, 4.0, 1.5))]
+FRAME_BOXES = [(5.013, 1.029, 0.4, (2.0, 4.0, 1.5)), (12.0, -6.0, -1.1, (1.0, 1.0, 1.0)), (40.0, 30.0, 2.0, (2.0, 4.0, 1.5)),
+               (120.0, 90.0, 0.7, (2.0, 4.0, 1.5))]   # the last one is 150 m away (beyond the 100 m anchor of the scale line)
 POLYS = [[(0, -10), (20, -10), (20, 10), (0, 10)], [(0, 10), (20, 10), (20, -10), (0, -10)], [(0, 0), (30, -12), (30, 12)],
          [(0, -8), (16, -8), (16, 0), (8, 0), (8, 8), (0, 8)], [(2, -9), (14, -11), (22, 0), (13, 9), (3, 7)]]
 _PC = [None]
@@ -117,8 +124,52 @@ def _frame_cloud():
         xs = np.arange(-2.05, 45, 1.37)
         ys = np.arange(-12.03, 35, 1.21)
         zs = [-3.0, 0.27, 0.9, 4.0]
-        _PC[0] = np.array([(x, y, z, 1.0) for x in xs for y in ys for z in zs])
+        near = [(x, y, z, 1.0) for x in xs for y in ys for z in zs]
+        fx, fy, fyaw, (fw, fl, fh) = FRAME_BOXES[3]
+        far = []
+        for a in REL:
+            for b in REL:
+                dx, dy = geom.rot2(a * fl / 2 * 1.37, b * fw / 2 * 1.37, fyaw)
+                far.append((fx + dx, fy + dy, 0.9, 1.0))
+        _PC[0] = np.array(near + far)
     return _PC[0]
+
+
+# vectorised reference (own formulas, numpy only): oriented-box test with scaled footprint / unscaled height, even-odd polygon test
+_CACHE = {}
+
+
+def _box_mask(PC, b, sc, zc):
+    key = ("box", id(PC), b[:3], tuple(b[3]), round(sc, 12), zc)
+    if key not in _CACHE:
+        x, y, yaw, (w, l, h) = b
+        c, s_ = math.cos(-yaw), math.sin(-yaw)
+        dx, dy = PC[:, 0] - x, PC[:, 1] - y
+        u, v = c * dx - s_ * dy, s_ * dx + c * dy
+        mu, mv, mz = sc * l / 2 - np.abs(u), sc * w / 2 - np.abs(v), h / 2 - np.abs(PC[:, 2] - zc)
+        inside = (mu > 0) & (mv > 0) & (mz >= 0)
+        margin = np.minimum(np.minimum(np.abs(mu), np.abs(mv)), np.abs(mz))
+        _CACHE[key] = (inside, margin)
+    return _CACHE[key]
+
+
+def _poly_mask(PC, poly):
+    key = ("poly", id(PC), tuple(poly))
+    if key not in _CACHE:
+        px, py = PC[:, 0], PC[:, 1]
+        inside = np.zeros(len(PC), dtype=bool)
+        dist = np.full(len(PC), np.inf)
+        n = len(poly)
+        for i in range(n):
+            (x1, y1), (x2, y2) = poly[i], poly[(i + 1) % n]
+            if y1 != y2:
+                cond = ((y1 > py) != (y2 > py)) & (px < (x2 - x1) * (py - y1) / (y2 - y1) + x1)
+                inside ^= cond
+            ex, ey = x2 - x1, y2 - y1
+            t = np.clip(((px - x1) * ex + (py - y1) * ey) / (ex * ex + ey * ey), 0.0, 1.0)
+            dist = np.minimum(dist, np.hypot(px - x1 - t * ex, py - y1 - t * ey))
+        _CACHE[key] = (inside, dist)
+    return _CACHE[key]
 
 
 def _in_box(p, b, sc, z=0.7):
@@ -144,18 +195,20 @@ def _check_frame_result(case, fr, gts, boxes, zc, s0, s100, minp, PC, polys, zr,
         bad("classified-not-once", "every ground truth must be reported exactly once as success / fail / warning: got %d results for %d objects" % (len(allr), len(gts)))
     scales = []
     outcome = []
+    any_box = np.zeros(len(PC), dtype=bool)
     for g, b in zip(gts, boxes):
         sc = s0 + 0.01 * (s100 - s0) * math.sqrt(b[0] ** 2 + b[1] ** 2 + zc ** 2)
         scales.append(sc)
+        inside, margin = _box_mask(PC, b, sc, zc)
+        any_box |= inside
         rs = [r for r in allr if r.ground_truth_object is g]
         if len(rs) != 1:
             continue
         r = rs[0]
-        flags = [_in_box(p, b, sc, zc) for p in PC]
-        if any(m < 1e-9 for _, m in flags):
+        if (margin < 1e-9).any():
             acc.skip("boundary:box-face")
             continue
-        cnt = sum(1 for f, _ in flags if f)
+        cnt = int(inside.sum())
         if cnt != r.inside_pointcloud_num:
             bad("inside-count", "object %s: %d points reported inside, %d geometrically inside (scale %.4f)" % (g.uuid, r.inside_pointcloud_num, cnt, sc))
         want = "warn" if (g.visibility is not None and str(getattr(g.visibility, "value", g.visibility)) == "none") else ("ok" if cnt >= minp else "fail")
@@ -164,20 +217,18 @@ def _check_frame_result(case, fr, gts, boxes, zc, s0, s100, minp, PC, polys, zr,
         if want != got:
             bad("classification", "object %s (visibility %s, %d points inside, threshold %d) reported as %s, expected %s" % (g.uuid, g.visibility, cnt, minp, got, want))
     k = 0
+    zin = (PC[:, 2] >= zr[0]) & (PC[:, 2] <= zr[1])
     for poly in polys:
-        exp = []
-        for p in PC:
-            if _edge_dist(p, poly) < 1e-9:
-                continue
-            if geom.point_in_poly(p[0], p[1], poly) and zr[0] <= p[2] <= zr[1] and not any(_in_box(p, b, sc, zc)[0] for b, sc in zip(boxes, scales)):
-                exp.append(tuple(np.round(p, 9)))
+        pin, pdist = _poly_mask(PC, poly)
+        sel = pin & zin & ~any_box & (pdist >= 1e-9)
+        exp = sorted(tuple(np.round(p, 9)) for p in PC[sel])
         if exp:
             if k >= len(fr.pointcloud_failed_non_detection):
                 bad("non-detection:missing", "points inside a non-detection area and outside every box are not reported")
                 break
             got = _rows(fr.pointcloud_failed_non_detection[k])
             k += 1
-            if got != sorted(exp):
+            if got != exp:
                 bad("non-detection:rows", "non-detection failure points differ from the reference: %d reported, %d expected" % (len(got), len(exp)))
     if k != len(fr.pointcloud_failed_non_detection):
         bad("non-detection:extra", "more non-detection failure arrays reported than areas with offending points")
@@ -189,7 +240,7 @@ def _sensing_manager(style):
         d = scratch.new_dir("c12_" + style)
         root = os.path.join(d, "ds")
         levels = ("full", "most", "partial", "none") if style == "t4" else ("v80-100", "v60-80", "v40-60", "v0-40")
-        anns = [dict(inst="i%d" % i, cat="car", pos=(b[0], b[1], 0.7), yaw=b[2], size=b[3], npts=5, vis=levels[(3, 0, 1)[i]]) for i, b in enumerate(FRAME_BOXES)]
+        anns = [dict(inst="i%d" % i, cat="car", pos=(b[0], b[1], 0.7), yaw=b[2], size=b[3], npts=5, vis=levels[(3, 0, 1, 2)[i]]) for i, b in enumerate(FRAME_BOXES)]
         t4.write(root, [dict(ts=1000000, ego=(0.0, 0.0, 0.0), anns=anns)], ["car"], vis_levels=levels)
         _M[style] = (root, d)
     return _M[style]
@@ -255,6 +306,28 @@ def check_case(case, acc):
         acc.outcome((lay, len(inside)))
         if acc.cases % 97 == 1:
             acc.sample(case)
+    elif lay == "prism":
+        PC = _frame_cloud()
+        poly = list(POLYS[case["poly"]])
+        if case["reversed"]:
+            poly = list(reversed(poly))
+        z0, z1 = case["z"]
+        area = [(x, y, z0) for x, y in poly] + [(x, y, z1) for x, y in poly]
+        acc.exec(2)
+        inside = crop_pointcloud(PC, area, inside=True)
+        outside = crop_pointcloud(PC, area, inside=False)
+        acc.compared()
+        pin, pdist = _poly_mask(PC, poly)
+        keepm = (pdist > 1e-9) & (np.minimum(np.abs(PC[:, 2] - z0), np.abs(PC[:, 2] - z1)) > 1e-9)
+        want = sorted(tuple(np.round(p, 9)) for p in PC[keepm & pin & (PC[:, 2] >= z0) & (PC[:, 2] <= z1)])
+        amb = {tuple(np.round(p, 9)) for p in PC[~keepm]}
+        got = [r for r in _rows(inside) if r not in amb]
+        if got != want:
+            bad("prism:inside-rows", "points inside a %s prism differ from the even-odd test: %d reported, %d expected" % ("clockwise" if case["reversed"] else "as-listed", len(got), len(want)))
+        if sorted(_rows(inside) + _rows(outside)) != _rows(PC):
+            bad("prism:partition", "inside and outside selections of a prism do not partition the cloud (%d + %d of %d)" % (len(inside), len(outside), len(PC)))
+        acc.state(("prism", case["poly"], case["reversed"], tuple(case["z"]), len(inside)), nontrivial=0 < len(inside) < len(PC))
+        acc.outcome(("prism", len(inside)))
     elif lay == "frame":
         PC = _frame_cloud()
         sel, viss = case["sel"], case["vis"]
@@ -292,7 +365,7 @@ def check_case(case, acc):
         order = [int(g.uuid[1:]) for g in gts]
         boxes = [FRAME_BOXES[i] for i in order]
         vis = [g.visibility for g in gts]
-        want_vis = {0: "none", 1: "full", 2: "most"}
+        want_vis = {0: "none", 1: "full", 2: "most", 3: "partial"}
         for g, i in zip(gts, order):
             v = getattr(g.visibility, "value", g.visibility)
             if v != want_vis[i] or not hasattr(g.visibility, "value"):
